@@ -8,7 +8,11 @@ batch-mate, a different walk policy per row, further padding steps after the las
 random admitted actions, i.e. their inert no-op / wait).  Python evaluates the property itself on the implementation's
 observables after EVERY step for EVERY row (mask non-empty incl. finished rows, done monotone, no exception, number of
 steps before the first done within the bound); Coq (Harness/HC0234_*.v) runs the row model on the same actions and
-compares mask emptiness, done and the step count, so that the theorems transfer."""
+compares mask emptiness, done and the step count, so that the theorems transfer.
+Every env.reset / env.step / env.pre_step / env.get_reward runs under a wall-clock guard (vt/sched_guard.py): a call that
+does not return IS the failure of "episodes terminate" and is reported as `<env>: env.step does not terminate` with the
+instance and the actions as replay; that env is then abandoned for the rest of the run.  env.pre_step is probed on clones
+of the running FFSP batches (it must refuse a batch with a row past stage 0; model Env/SchedGuards.v)."""
 import random
 import time
 
@@ -36,7 +40,7 @@ def _evaluate(ctx, res, coll, tag):
     # FFSP
     recs = res["ffsp"]
     codes = C.coq_codes(ctx, "cases_C02_sched_ffsp" + tag, C.HDR_FFSP, "HC07F.ffsp_case", "check_C02_ffsp",
-                        [G.ffsp_case_term(r) for r in recs], shard=30)
+                        [G.ffsp_case_term(r, keys=False) for r in recs], shard=30)
     if codes is not None:
         n["ffsp_rows"] = len(codes)
         coll.codes("ffsp", codes, [G.ffsp_replay_obj(r, "C02", 0) for r in recs], "c02")
@@ -47,12 +51,15 @@ def _evaluate(ctx, res, coll, tag):
     # SMTWTP
     srecs = res["smtwtp"]
     codes = C.coq_codes(ctx, "cases_C02_sched_smtwtp" + tag, C.HDR_FFSP, "HC07F.smtwtp_case", "check_C02_smtwtp",
-                        [G.smtwtp_case_term(r) for r in srecs], shard=60)
+                        [G.smtwtp_case_term(r, keys=False) for r in srecs], shard=60)
     if codes is not None:
         n["smtwtp_rows"] = len(codes)
         coll.codes("smtwtp", codes, [G.smtwtp_replay_obj(r, "C02", 0) for r in srecs], "c02")
         for r in srecs:
             ctx.seen({"s": [r["due"], r["wgt"], r["ptime"], [a for a, _, _ in r["steps"]]]}, nontrivial=r["n"] >= 2)
+    # env.pre_step probed on clones of the running FFSP batches: it must refuse a batch with a row past stage 0
+    n["ffsp_pre_step_probes"], _ = G.ffsp_probe_evaluate(ctx, res.get("ffsp_batches", []), "cases_C02_sched_ffsp_prestep" + tag, C.HDR_FFSP,
+                                                          coll.fail, count=not tag)
     return n
 
 
@@ -81,12 +88,14 @@ def run_unit(ctx, proofs_ok):
         unit = dict(n, models="Env/FJSP.v, Env/FFSP.v, Env/SMTWTP.v; Env/SchedBatch.v, Env/SchedBatch2.v",
                     observables="per row and step: action_mask non-empty (python: implementation alone; Coq: equal to the model's "
                                 "emptiness), done (monotone; equal to the model), exceptions, steps before the first done vs the bound")
-        if (coll.n_disagree or not proofs_ok or any("C02_sched" in b for b in ctx.broken)) and not coll.best:
+        if (coll.n_disagree or not proofs_ok or any("C02_sched" in b for b in ctx.broken)) and not coll.best and not C.guard.timed_out():
             res2 = C.sched_streams(ctx, rng, torch, 4 * scale, coll, "c02_search")     # the search: python-level property only matters
             n2 = _evaluate(ctx, res2, C.Collector(ctx, "C02", "sched-search"), "_search")
             unit["search_rows"] = sum(n2.values())
         unit["concrete_failures"] = coll.flush()
         unit["disagreements"] = coll.n_disagree
+        unit["env_call_guard"] = dict(C.guard.evidence(), envs_abandoned_after_a_call_that_did_not_return=C.guard.timed_out(),
+                                      reported_as="<env>: env.step does not terminate (C02: episodes terminate), replay = instance + actions")
         unit["wall_s_unit"] = round(time.time() - t0, 1)
         ctx.units["sched"] = unit
         for kind, mno, out in res["fjsp"][:1]:
